@@ -1,20 +1,24 @@
 #!/bin/bash
 # usage: try_neutral.sh <patch.diff>...  — applies each behaviour-preserving patch to a scratch copy of /repo's current tree, runs
-# ALL twenty quick checks against it and prints one line per patch with the checks that raised an alarm (there should be none).
+# ALL twenty quick checks against it (in parallel) and prints one line per patch with the checks that raised an alarm (none expected).
+# Full outputs of alarming checks are kept under /tmp/neutral-reports/.
 cd /verif
-ALL=$(for i in $(seq -w 1 20); do echo C$i; done)
+mkdir -p /tmp/neutral-reports
 for P in "$@"; do
   PA="$(readlink -f "$P")"
   D=$(mktemp -d /tmp/neuttry-XXXXXX)
   rsync -a --exclude target --exclude .git /repo/ "$D/repo/"
   if ! (cd "$D/repo" && git init -q . && git apply "$PA"); then echo "$P: PATCH DOES NOT APPLY"; rm -rf "$D"; continue; fi
+  tag=$(echo "$P" | tr '/' '_')
+  # warm the facts once (serialised anyway), then fan out
+  VERIF_REPO="$D/repo" ./check C01 --tier quick > "$D/C01.out" 2>&1; echo $? > "$D/C01.rc"
+  seq -w 2 20 | xargs -P 10 -I{} sh -c "VERIF_REPO=$D/repo ./check C{} --tier quick > $D/C{}.out 2>&1; echo \$? > $D/C{}.rc"
   bad=""
-  for id in $ALL; do
-    out=$(VERIF_REPO="$D/repo" ./check "$id" --tier quick 2>&1)
-    if [ $? -ne 0 ]; then
-      rules=$(echo "$out" | grep -oE "\[(VIOLATED|UNRECOGNISED)\] [A-Za-z0-9_.]+" | sort -u | tr '\n' ' ')
-      bad="$bad $id{$rules}"
-      mkdir -p /tmp/neutral-reports; echo "$out" > "/tmp/neutral-reports/$(echo "$P" | tr '/' '_').$id.txt"
+  for i in $(seq -w 1 20); do
+    if [ "$(cat $D/C$i.rc)" != "0" ]; then
+      rules=$(grep -oE "\[(VIOLATED|UNRECOGNISED)\] [A-Za-z0-9_.]+" "$D/C$i.out" | sort -u | tr '\n' ' ')
+      bad="$bad C$i{$rules}"
+      cp "$D/C$i.out" "/tmp/neutral-reports/$tag.C$i.txt"
     fi
   done
   echo "$P: ${bad:-silent}"
